@@ -364,12 +364,104 @@ func runC14(ctx *core.Ctx, idx int) *core.Result {
 	if idx%16 == 5 {
 		c14ManyFiles(ctx, res, g, idx)
 	}
+	if idx%2 == 0 {
+		c14Repeat(ctx, res, g, idx)
+	}
 	if n, first := raceReports(); n > racesBefore {
 		res.Violate("C14/data-race", fmt.Sprintf("%d new race detector report(s)\n%s", n-racesBefore, first), map[string]string{"p.patch": pt})
 	}
 	res.Ob("race-detector-reports", 0)
 	res.Sample(map[string]any{"patch": pt, "goroutines": G, "gomaxprocs": procs, "calls": len(all), "overlapping_pairs": overlaps})
 	return res
+}
+
+// c14Repeat: "the same on every run". Inputs with ties - a path imported under several names and named by a metavariable
+// that the code of the patch does not pin down, several equally good candidates for a match - are applied many times,
+// from one parsed patch and from fresh ones, in process and through the CLI: all results are the same bytes. A choice
+// that follows map iteration order or an address shows as two different outputs among a few dozen runs.
+func c14Repeat(ctx *core.Ctx, res *core.Result, g *gen.G, idx int) {
+	r := g.R
+	m := 2 + r.Intn(3)
+	var src strings.Builder
+	src.WriteString("package p\n\nimport (\n")
+	perm := r.Perm(m)
+	for _, j := range perm {
+		fmt.Fprintf(&src, "\tnm%c \"example.com/tie/old\"\n", 'a'+j)
+	}
+	src.WriteString("\t\"os\"\n)\n\nfunc f() {\n\tbar(os.Args)\n")
+	for _, j := range perm {
+		fmt.Fprintf(&src, "\tnm%c.Do(%d)\n", 'a'+j, j)
+	}
+	src.WriteString("}\n")
+	var pt string
+	switch idx / 2 % 4 {
+	case 0: // the code does not mention the metavariable: any of the names will do, but the same one every time
+		pt = "@@\nvar foo identifier\n@@\n-import foo \"example.com/tie/old\"\n+import foo \"example.com/tie/new\"\n\n bar\n"
+	case 1: // the code mentions it: every name matches somewhere
+		pt = "@@\nvar foo identifier\nvar x expression\n@@\n-import foo \"example.com/tie/old\"\n+import foo \"example.com/tie/new\"\n\n-foo.Do(x)\n+foo.Done(x)\n"
+	case 2: // two metavariables for the same path
+		pt = "@@\nvar foo, baz identifier\n@@\n import foo \"example.com/tie/old\"\n-import baz \"example.com/tie/old\"\n\n-bar\n+barred\n"
+	default: // a guard only
+		pt = "@@\nvar foo identifier\nvar x expression\n@@\n import foo \"example.com/tie/old\"\n\n-bar(x)\n+bar(x, foo.Default)\n"
+	}
+	in := src.String()
+	rep := map[string]string{"p.patch": pt, "in.go": in}
+	seen := map[string]int{}
+	first := ""
+	note := func(out, errs, pan string) bool {
+		if pan != "" {
+			res.Violate("C14/engine-panic:"+core.PanicSignature(pan), pan, rep)
+			return false
+		}
+		k := out + "\x00" + errs
+		if len(seen) == 0 {
+			first = k
+		}
+		seen[k]++
+		return true
+	}
+	pf, perr, pan := core.ParsePatch("tie.patch", []byte(pt))
+	if perr != nil || pan != "" {
+		res.Violate("C14/patch-rejected", fmt.Sprint(perr, pan), rep)
+		return
+	}
+	for i := 0; i < 40; i++ {
+		out, err, pan := core.ApplyParsed(pf, "t.go", []byte(in))
+		if !note(string(out), fmt.Sprint(err), pan) {
+			return
+		}
+		res.Evals++
+	}
+	for i := 0; i < 20; i++ {
+		ar := core.ApplyAPI(pt, in)
+		if !note(string(ar.Out), fmt.Sprint(ar.ApplyErr), ar.Panic) {
+			return
+		}
+		res.Evals++
+	}
+	dir, _ := os.MkdirTemp(ctx.Tmp, "c14tie")
+	defer os.RemoveAll(dir)
+	os.WriteFile(filepath.Join(dir, "tie.patch"), []byte(pt), 0o644)
+	os.WriteFile(filepath.Join(dir, "t.go"), []byte(in), 0o644)
+	cliSeen := map[string]int{}
+	for i := 0; i < 12; i++ {
+		cr := ctx.RunCLI(core.CLIOpts{Dir: dir, Args: []string{"-p", "tie.patch", "--print-only", "t.go"}})
+		cliSeen[string(cr.Stdout)+"\x00"+fmt.Sprint(cr.Exit)]++
+		res.Evals++
+	}
+	res.Ob("repeat-runs", 72)
+	res.Sig("repeat", idx/2%4, m, fmt.Sprint(perm))
+	if len(seen) > 1 || len(cliSeen) > 1 {
+		i := 0
+		for k := range seen {
+			if k != first {
+				rep[fmt.Sprintf("other-output-%d.go", i)] = strings.SplitN(k, "\x00", 2)[0]
+				i++
+			}
+		}
+		rep["first-output.go"] = strings.SplitN(first, "\x00", 2)[0]
+		res.Violate("C14/result-differs-from-run-to-run", fmt.Sprintf("the same patch and the same file: %d different results among 60 library calls, %d among 12 CLI runs", len(seen), len(cliSeen)), rep)
+	}
 }
 
 func c14CLI(ctx *core.Ctx, res *core.Result, intn func(int) int, pt string, files []string, pi int) {
